@@ -32,7 +32,14 @@ func vPlace(b *vBus, pc uint16, tbl, op int) {
 	}
 }
 
-func VStep(tbl, op int) {
+func VStep(tbl, op int) { vStepCore(tbl, op, false) }
+
+// VStepRefused: the same Step with a maskable request pending and refused
+// (IFF1 clear): the request is part of the pre-state too, the instruction must
+// be just as exact, and the request must still be pending, untouched.
+func VStepRefused(tbl, op int) { vStepCore(tbl, op, true) }
+
+func vStepCore(tbl, op int, refused bool) {
 	var pre States
 	vHavoc(&pre, "s")
 	halt := vBool("halt")
@@ -41,7 +48,18 @@ func VStep(tbl, op int) {
 	sb := bus.Fork("spec")
 	bus0 := bus.Fork("bus0")
 	cpu := &CPU{States: pre, Memory: bus, IO: bus, HALT: halt}
+	var it *Interrupt
+	if refused {
+		pre.IFF1 = false
+		cpu.IFF1 = false
+		it = &Interrupt{Type: IMType, Data: vBytes("d", 1)}
+		cpu.Interrupt = it
+	}
 	cpu.Step()
+	if refused {
+		vAssert("pending", cpu.Interrupt == it)
+		cpu.Interrupt = nil
+	}
 	o := vSpecStep(pre, sb, tbl, op)
 	if !o.Impl && vSpecSiliconDefined(tbl, op) {
 		// outside the implemented set: "consumed, no effect" or what silicon does
